@@ -356,3 +356,44 @@ func TopStr(db protocol.ChainDB, block common.Hash) string {
 	}
 	return sb.String()
 }
+
+// UniverseDump is the serialisable form of a universe.
+type UniverseDump struct {
+	Addrs, SKeys, Codes, IDs []string
+}
+
+// Export serialises the universe.
+func (u *Universe) Export() UniverseDump {
+	var d UniverseDump
+	for _, a := range u.Addrs() {
+		d.Addrs = append(d.Addrs, a.Hex())
+	}
+	for _, h := range sortedHashes(u.skeys) {
+		d.SKeys = append(d.SKeys, h.Hex())
+	}
+	for _, h := range sortedHashes(u.codes) {
+		d.Codes = append(d.Codes, h.Hex())
+	}
+	for _, h := range sortedHashes(u.ids) {
+		d.IDs = append(d.IDs, h.Hex())
+	}
+	return d
+}
+
+// ImportUniverse rebuilds a universe.
+func ImportUniverse(d UniverseDump) *Universe {
+	u := NewUniverse()
+	for _, a := range d.Addrs {
+		u.Addr(common.HexToAddress(a))
+	}
+	for _, h := range d.SKeys {
+		u.StorageKey(common.HexToHash(h))
+	}
+	for _, h := range d.Codes {
+		u.codes[common.HexToHash(h)] = true
+	}
+	for _, h := range d.IDs {
+		u.ids[common.HexToHash(h)] = true
+	}
+	return u
+}
